@@ -7,6 +7,7 @@ import re
 
 LEVEL = "proof"
 USES_LABELS = True
+DISAGREEMENT_IS_COUNTEREXAMPLE = True
 RULE = ("raw byte comparison model vs crate over stepwise honest flows, in-memory flows and logins without a record, on all "
         "parameter shapes (empty .. 65535 bytes); plus the RFC 9807 vectors found in the repository replayed through both sides "
         "with the vectors' blinds/seeds/nonces on the RNG tape. distinct = distinct (suite, op, args)")
